@@ -8,7 +8,19 @@
    PARTIAL: the end-to-end statement "payload keeps flowing both ways during and after the attack"
    is decided by the executed correspondence (py/props/c09.py re-injects every captured datagram
    at several offsets from three source choices and then runs a 400 s probe phase). *)
-From VpnModel Require Import Base Nonce Replay ReplayProofs Core CoreProofs Conn PeerCrypto Node NodeProofs Rotation2 Rotation2Proofs.
+From VpnModel Require Import Base Nonce Replay ReplayProofs Core CoreProofs Conn PeerCrypto Node NodeProofs Rotation2 Rotation2Proofs NodeInfo Table SurviveProofs.
+
+(* HEADLINE: whatever datagram arrives from whatever claimed source, every established peer stays a peer, unless the datagram OPENED (genuine seal under the connection key and admitted by the replay window: C02/C03) as a CLOSE message of that very peer *)
+Theorem C09_established_peer_survives : forall salts now n src w a,
+  ahas (n_peers n) a = true ->
+  ahas (n_peers (fst (handle_net salts now n src w))) a = true \/
+  (a = src /\ exists pc r, snd (fst (pc_handle payload_ok pc w)) = Ok r /\ is_close r = true).
+Proof. exact established_peer_survives. Qed.
+
+(* after the crypto layer a peer entry is removed only by a CLOSE message, and only the sender's *)
+Theorem C09_close_only : forall salts now n src r reply a, ahas (n_peers n) a = true ->
+  ahas (n_peers (fst (handle_result salts now n src r reply))) a = true \/ (a = src /\ is_close r = true).
+Proof. exact handle_result_keeps. Qed.
 
 (* forged datagrams: no trace, from any claimed source *)
 Theorem C09_forged_no_trace : forall salts now l n, Forall (fun x => unverifiable (snd x)) l -> all_encrypted n ->
@@ -44,6 +56,8 @@ Theorem C09_replayed_rotation : forall n seen S R toS toR m, Shape n seen S R to
   rend_deliver S m = Ok S.
 Proof. exact duplicate_harmless_S. Qed.
 
+Print Assumptions C09_established_peer_survives.
+Print Assumptions C09_close_only.
 Print Assumptions C09_forged_no_trace.
 Print Assumptions C09_replayed_init_keeps_peer.
 Print Assumptions C09_pending_reap_keeps_peer.
